@@ -141,6 +141,20 @@ class Program:
             self._index_src(f.key, f)
         self.const_cache = {}
         self.resolve_cache = {}
+        self.alloc_static = {}     # 'alloc290' -> static item name
+        self.static_cells = {}
+        self.assoc_consts = {}     # const name (last segment) -> [Fn] of impl-associated consts
+        for p, tag in mir_paths:
+            with open(p, encoding='utf-8', errors='replace') as fh:
+                for line in fh:
+                    if line.startswith('alloc'):
+                        m = re.match(r'^(alloc\d+) \(static: (.*?), size:', line)
+                        if m: self.alloc_static[m.group(1)] = m.group(2)
+        for key_, f in self.fns.items():
+            if f.kind != 'fn' and '<impl at' in f.name:
+                self.assoc_consts.setdefault(f.name.split('::')[-1], []).append(f)
+                try: self._index_src(f.key, f)
+                except Exception: self.impl_of[f.key] = None
 
     @staticmethod
     def closure_key(cid):
@@ -239,7 +253,7 @@ class Interp:
         m = re.search(r'::(promoted\[\d+\])$', path)
         if m and cur_fn is not None:
             key = cur_fn.name + '::' + m.group(1) + ('#%d' % cur_fn.dup if cur_fn.dup > 1 else '')
-            if key in self.prog.fns: return self.eval_const_item(key)
+            if key in self.prog.fns: return self.eval_const_item(key, substs)
         if path in self.prog.fns and self.prog.fns[path].kind != 'fn':
             return self.eval_const_item(path)
         segs_ = strip_generics(path).split('::')
@@ -258,6 +272,21 @@ class Interp:
         for name, g in self.prog.fns.items():
             if g.kind != 'fn' and (name.endswith('::' + base) or base.endswith('::' + name)):
                 return self.eval_const_item(name)
+        m = re.match(r'^\{(alloc\d+): (.*)\}$', path)
+        if m and m.group(1) in self.prog.alloc_static:
+            sname = self.prog.alloc_static[m.group(1)]
+            cell = self.prog.static_cells.get(sname)
+            if cell is None:
+                cands = [n for n, g in self.prog.fns.items() if g.kind != 'fn' and (n == sname or n.endswith('::' + sname))]
+                if len(cands) != 1: raise Unsupported('static %s' % sname)
+                cell = [self.eval_const_item(cands[0])]; self.prog.static_cells[sname] = cell
+            return Ref(cell, 0) if m.group(2).lstrip().startswith('&') else cell[0]
+        m = re.match(r'^<(.+) as (.+)>::(\w+)$', substitute_text(path, substs))
+        if m and m.group(3) in self.prog.assoc_consts:
+            want = base_name_of(m.group(1))
+            for g in self.prog.assoc_consts[m.group(3)]:
+                imp = self.prog.impl_of.get(g.key)
+                if imp and base_name_of(imp['self_ty']) == want: return self.eval_const_item(g.key if g.key in self.prog.fns else g.name)
         sn = base.split('::')[-1]
         st_ = self.prog.si.structs.get(sn) if hasattr(self.prog, 'si') else None
         if st_ and any(not flds for _f, flds in st_): return Agg(norm_ty_name(path)[1], [])      # unit struct value
@@ -266,12 +295,13 @@ class Interp:
         if sc is not None: return sc
         return FnRef(substitute_text(path, substs), dict(substs))
 
-    def eval_const_item(self, name):
-        if name in self.prog.const_cache:
-            return deep_copy(self.prog.const_cache[name])
+    def eval_const_item(self, name, substs=None):
+        ck = name if not substs else (name, tuple(sorted(substs.items())))
+        if ck in self.prog.const_cache:
+            return deep_copy(self.prog.const_cache[ck])
         f = self.prog.fns[name]
-        v = self.run_fn(f, [], {})
-        self.prog.const_cache[name] = v
+        v = self.run_fn(f, [], dict(substs) if substs else {})
+        self.prog.const_cache[ck] = v
         return deep_copy(v)
 
     # ---------------------------------------------------------------- places
@@ -669,6 +699,11 @@ class Interp:
         if kind == 'model':
             return target[1](self, args, target[2])
         raise Unsupported('cannot resolve call: ' + text[:200])
+
+def base_name_of(ty):
+    t = parse_ty(ty)
+    while t[0] == 'ref': t = t[2]
+    return t[1] if t[0] == 'path' else show_ty(t)
 
 def std_assoc_const(path):
     """`core::num::<impl usize>::MAX`, `core::f64::<impl f64>::NAN`, `std::f64::consts::PI`, `char::MAX` ..."""
